@@ -37,6 +37,7 @@ type Slicer struct {
 	ThroughOutParams bool
 	fieldStores      map[FieldKey][]ssa.Value
 	globalStore      map[*ssa.Global][]ssa.Value
+	derefStores      map[*ssa.Function]map[string][]ssa.Value
 }
 
 // NewSlicer returns a slicer with defaults.
@@ -78,6 +79,7 @@ func (s *Slicer) index() {
 	}
 	s.fieldStores = map[FieldKey][]ssa.Value{}
 	s.globalStore = map[*ssa.Global][]ssa.Value{}
+	s.derefStores = map[*ssa.Function]map[string][]ssa.Value{}
 	for f := range s.P.AllFunctions() {
 		if !load.FuncInRepo(f) {
 			continue
@@ -94,6 +96,14 @@ func (s *Slicer) index() {
 					s.fieldStores[k] = append(s.fieldStores[k], st.Val)
 				case *ssa.Global:
 					s.globalStore[a] = append(s.globalStore[a], st.Val)
+				case *ssa.UnOp, *ssa.Field, *ssa.Phi, *ssa.Extract, *ssa.Lookup, *ssa.Index:
+					// a store through a pointer that was itself read from memory (a table of destinations): a possible
+					// definition of every cell of that type whose address was put into memory in this function
+					if s.derefStores[f] == nil {
+						s.derefStores[f] = map[string][]ssa.Value{}
+					}
+					k := types.TypeString(st.Val.Type(), nil)
+					s.derefStores[f][k] = append(s.derefStores[f][k], st.Val)
 				}
 			}
 		}
@@ -329,6 +339,16 @@ func (s *Slicer) walkAllocStores(a *ssa.Alloc, fr *frame, depth, lift int, seen 
 				if r.Addr == addr {
 					any = true
 					s.walk(r.Val, fr, depth, lift, seen, visit, term)
+				} else if r.Val == addr {
+					// the cell's address is kept in memory: stores through pointers of this type read back from
+					// memory in the same function may define it
+					s.index()
+					if pt, ok := addr.Type().Underlying().(*types.Pointer); ok {
+						for _, val := range s.derefStores[a.Parent()][types.TypeString(pt.Elem(), nil)] {
+							any = true
+							s.walk(val, fr, depth, lift, seen, visit, term)
+						}
+					}
 				}
 			case *ssa.FieldAddr:
 				scan(r, d+1)
